@@ -2670,7 +2670,9 @@ def record_iteration(requester, prob, case_name):
     if opts['record_inputs'] and (inputs._names or len(discrete_inputs) > 0):
         data['input'] = model._retrieve_data_of_kind(filt, 'input', 'nonlinear', local)
 
-    if opts['record_outputs'] and (outputs._names or len(discrete_outputs) > 0):
+    # (the design variables / responses selected by record_desvars, record_objectives, ... are outputs
+    # that are recorded whether or not record_outputs is set: filt['output'] is the selected set)
+    if filt['output'] and (outputs._names or len(discrete_outputs) > 0):
         data['output'] = model._retrieve_data_of_kind(filt, 'output', 'nonlinear', local)
 
     if opts['record_residuals'] and residuals._names:
